@@ -173,3 +173,57 @@ func init() {
 		return strings.Contains(t, "already exists") || strings.Contains(t, "file exists")
 	}
 }
+
+// datamon/pkg/convert: unsafe reinterpretations, modelled as the conversions they implement.
+// jacobsa/fuse: the dirent encoder (Linux fuse_dirent layout) and the server constructor.
+func init() {
+	const conv = "github.com/oneconcern/datamon/pkg/convert."
+	externals[conv+"UnsafeStringToBytes"] = func(fr *frame, args []value) value {
+		c := strCells(args[0])
+		out := make([]value, len(c))
+		copy(out, c)
+		return out
+	}
+	externals[conv+"UnsafeBytesToString"] = func(fr *frame, args []value) value {
+		return mkStr(args[0].([]value))
+	}
+	externals["github.com/jacobsa/fuse/fuseutil.NewFileSystemServer"] = func(fr *frame, args []value) value {
+		fr.i.ps.res.Stubs["fuseutil.NewFileSystemServer (inert)"] = true
+		return iface{}
+	}
+	// func WriteDirent(buf []byte, d Dirent) (n int); Dirent{Offset, Inode, Name, Type}
+	externals["github.com/jacobsa/fuse/fuseutil.WriteDirent"] = func(fr *frame, args []value) value {
+		i := fr.i
+		buf := args[0].([]value)
+		d := args[1].(structure)
+		off := uint64(i.asIntC(d[0]))
+		ino := uint64(i.asIntC(d[1]))
+		name := strCells(d[2])
+		typ := uint32(i.asIntC(d[3]))
+		pad := 0
+		if len(name)%8 != 0 {
+			pad = 8 - len(name)%8
+		}
+		total := 24 + len(name) + pad
+		if total > len(buf) {
+			return 0
+		}
+		put := func(at int, v uint64, n int) {
+			for k := 0; k < n; k++ {
+				buf[at+k] = uint8(v >> (8 * uint(k)))
+			}
+		}
+		put(0, ino, 8)
+		put(8, off, 8)
+		put(16, uint64(len(name)), 4)
+		put(20, uint64(typ), 4)
+		for k, c := range name {
+			buf[24+k] = c
+		}
+		for k := 0; k < pad; k++ {
+			buf[24+len(name)+k] = uint8(0)
+		}
+		i.ps.res.Stubs["fuseutil.WriteDirent (fuse_dirent layout: ino, off, namelen, type, name, padding to 8)"] = true
+		return total
+	}
+}
